@@ -303,17 +303,38 @@ def is_none_literal(node: Node) -> TypeGuard[NameExpr]:
     return isinstance(node, NameExpr) and node.fullname == "builtins.None"
 
 
+# Mypy turns each replacement field of an f-string into one of these `.format()` calls, depending
+# on the conversion flag (`!r`, `!s` or `!a`) of the field.
+FSTRING_FIELD_TEMPLATES = {
+    "{:{}}": "",
+    "{!r:{}}": "!r",
+    "{!s:{}}": "!s",
+    "{!a:{}}": "!a",
+}
+
+
 def get_fstring_parts(expr: Expression) -> list[tuple[bool, Expression, str]]:
+    """
+    Split the expression Mypy builds for an f-string back into its parts. Each part is either
+    `(False, StrExpr, "")` for literal text, or `(True, expr, suffix)` for a replacement field,
+    where `suffix` is the conversion flag and format spec of the field (such as `!r:>10`), if any.
+    """
+
     match expr:
         case CallExpr(
             callee=MemberExpr(
-                expr=StrExpr(value="{:{}}"),
+                expr=StrExpr(value=template),
                 name="format",
             ),
             args=[arg, StrExpr(value=format_arg)],
             arg_kinds=[ArgKind.ARG_POS, ArgKind.ARG_POS],
-        ):
-            return [(True, arg, format_arg)]
+        ) if template in FSTRING_FIELD_TEMPLATES:
+            suffix = FSTRING_FIELD_TEMPLATES[template]
+
+            if format_arg:
+                suffix += f":{format_arg}"
+
+            return [(True, arg, suffix)]
 
         case CallExpr(
             callee=MemberExpr(
@@ -485,7 +506,7 @@ def _stringify(node: Node) -> str:
             if fstring_parts := get_fstring_parts(node):
                 output = 'f"'
 
-                for is_format_arg, arg, fmt in fstring_parts:
+                for is_format_arg, arg, suffix in fstring_parts:
                     if not is_format_arg:
                         assert isinstance(arg, StrExpr)
 
@@ -499,7 +520,7 @@ def _stringify(node: Node) -> str:
                             # `{{` would be an escaped brace
                             field = f" {field}"
 
-                        output += f"{{{field}:{fmt}}}" if fmt else f"{{{field}}}"
+                        output += f"{{{field}{suffix}}}"
 
                 output += '"'
                 return output
